@@ -1,11 +1,25 @@
-(* C12 -- the reversible (Prinz) maximum-likelihood estimator.  Property theorems only. *)
-From Coq Require Import List ZArith Reals.
-From EV Require Import Prinz PrinzGen PrinzProofs.
+(* C12 -- the reversible (Prinz) maximum-likelihood estimator is a maximum-likelihood fixed point.
+   Property theorems only; proofs live in Proof/PrinzProofs.v (updates over R), Proof/PrinzSweep.v
+   (loop skeleton over R) and Proof/PrinzCert.v (certificate checker over Q).
+
+   py_diag / py_offdiag / pyx_diag / pyx_offdiag are GENERATED from the loop bodies of
+   builders._prinz_mle_py and libmsm._mle_prinz_dense (Gen/PrinzGen.v), generic in the number type;
+   ROps instantiates them at the real numbers (sqrt = the real square root).
+   A state is (X, X_rs): the symmetric matrix and the RUNNING row sums the code maintains.
+   qa, qb, qc are the coefficients a, b, c of the code's quadratic; Inv n s says: X symmetric,
+   X_rs i = sum_j X i j, X >= 0; CInv says: C >= 0 and C_rs i = sum_j C i j.
+
+   PARTIAL (not theorems, observed per input by harness/props/c12.py): convergence of the iteration,
+   global optimality over all reversible matrices (likelihood is compared with the transpose estimate
+   and sampled reversible competitors), IEEE rounding, the stopping rule on the pseudo log-likelihood.
+   Theorems over R depend on the standard library's axioms of the reals (printed below). *)
+From Coq Require Import List ZArith QArith Qabs Reals.
+From EV Require Import Prinz PrinzGen PrinzProofs PrinzSweep PrinzCert.
 Import ListNotations.
 Open Scope R_scope.
 
 (* ---- clause "the compiled and the pure-Python implementations agree": the update formulas
-        translated from builders.py and from libmsm.pyx are the same functions *)
+        translated from builders.py and from libmsm.pyx are the same functions (any number type) *)
 Theorem c12_py_pyx_same_updates : forall (K : Type) (o : Ops K),
   (forall C_ii Crs_i Xrs_i X_ii, py_diag o C_ii Crs_i Xrs_i X_ii = pyx_diag o C_ii Crs_i Xrs_i X_ii) /\
   (forall C_ij C_ji Crs_i Crs_j Xrs_i Xrs_j X_ij X_ji,
@@ -13,3 +27,170 @@ Theorem c12_py_pyx_same_updates : forall (K : Type) (o : Ops K),
      pyx_offdiag o C_ij C_ji Crs_i Crs_j Xrs_i Xrs_j X_ij X_ji).
 Proof. exact py_pyx_same_updates. Qed.
 Print Assumptions c12_py_pyx_same_updates.
+
+(* ... hence whole sweeps agree *)
+Theorem c12_py_pyx_same_sweep : forall (K : Type) (o : Ops K) C Crs n s,
+  py_sweep o C Crs n s = pyx_sweep o C Crs n s.
+Proof. exact py_pyx_same_sweep. Qed.
+Print Assumptions c12_py_pyx_same_sweep.
+
+(* ---- offdiag_root: the value v = (-b + sqrt(b^2 - 4ac)) / (2a) the code computes is a non-negative
+        root of a v^2 + b v + c whenever a > 0 and c <= 0 *)
+Theorem c12_offdiag_root : forall a b c : R,
+  0 < a -> c <= 0 ->
+  let v := root a b c in a * v * v + b * v + c = 0 /\ 0 <= v.
+Proof. exact quad_root. Qed.
+Print Assumptions c12_offdiag_root.
+
+(* ... and what the generated pairwise update returns is exactly that root (or X_ji when a = 0), stored
+   in both X_ij and X_ji, with both running row sums corrected by the change *)
+Theorem c12_offdiag_update_spec : forall cij cji ci cj xi xj xij xji : R,
+  qc cij cji xi xj xij <= 0 ->
+  py_offdiag ROps cij cji ci cj xi xj xij xji =
+    let v := newv cij cji ci cj xi xj xij xji in (v, v, xi + (v - xij), xj + (v - xji)).
+Proof. exact py_offdiag_spec. Qed.
+Print Assumptions c12_offdiag_update_spec.
+
+(* ---- offdiag_is_stationary: with r_i, r_j the rest of rows i and j, the stored value v is >= 0, is a
+        zero of the derivative of the log-likelihood in the coordinate x_ij = x_ji (row sums moving
+        with it) when positive, and is positive when the pair has counts and both rows have other mass *)
+Theorem c12_offdiag_is_stationary : forall cij cji ci cj xi xj xij xji : R,
+  0 <= cij + cji -> 0 <= xi - xij -> 0 <= xj - xij -> qa cij cji ci cj > 0 ->
+  let ri := xi - xij in let rj := xj - xij in
+  let v := fst (fst (fst (py_offdiag ROps cij cji ci cj xi xj xij xji))) in
+  0 <= v /\
+  (0 < v -> derivable_pt_lim (ell_off (cij + cji) ci cj ri rj) v 0) /\
+  (0 < cij + cji -> 0 < ri -> 0 < rj -> 0 < v).
+Proof. exact offdiag_is_stationary. Qed.
+Print Assumptions c12_offdiag_is_stationary.
+
+(* ... the only positive stationary point of that coordinate *)
+Theorem c12_offdiag_stationary_unique : forall cij cji ci cj xi xj xij xji w : R,
+  0 < cij + cji -> 0 < xi - xij -> 0 < xj - xij -> qa cij cji ci cj > 0 ->
+  0 < w -> dell_off (cij + cji) ci cj (xi - xij) (xj - xij) w = 0 ->
+  w = fst (fst (fst (py_offdiag ROps cij cji ci cj xi xj xij xji))).
+Proof. exact offdiag_stationary_unique. Qed.
+Print Assumptions c12_offdiag_stationary_unique.
+
+(* the derivative used above is the derivative of the coordinate log-likelihood *)
+Theorem c12_ell_off_derivative : forall s ci cj ri rj v : R,
+  0 < v -> 0 < ri + v -> 0 < rj + v ->
+  derivable_pt_lim (ell_off s ci cj ri rj) v (dell_off s ci cj ri rj v).
+Proof. exact ell_off_derivative. Qed.
+Print Assumptions c12_ell_off_derivative.
+
+(* ---- diag_is_stationary *)
+Theorem c12_diag_is_stationary : forall cii ci xi xii : R,
+  0 <= cii -> 0 <= xi - xii -> 0 < ci - cii ->
+  let r := xi - xii in
+  let u := fst (py_diag ROps cii ci xi xii) in
+  0 <= u /\ u * (ci - cii) = cii * r /\
+  (0 < u -> derivable_pt_lim (ell_diag cii ci r) u 0).
+Proof. exact diag_is_stationary. Qed.
+Print Assumptions c12_diag_is_stationary.
+
+(* ---- rowsum_tracking, symmetry_preserved, non-negativity: one sweep (hence any number of sweeps, from
+        X = C + C^T) keeps the running row sums equal to the true row sums, X symmetric and X >= 0 *)
+Theorem c12_sweep_invariant : forall n C Crs, CInv n C Crs ->
+  forall s, Inv n s -> Inv n (py_sweep ROps C Crs n s).
+Proof. exact sweep_invariant. Qed.
+Print Assumptions c12_sweep_invariant.
+
+Theorem c12_iteration_invariant : forall n C Crs, CInv n C Crs ->
+  forall k, Inv n (Nat.iter k (py_sweep ROps C Crs n) (init_state ROps n C)).
+Proof. exact iteration_invariant. Qed.
+Print Assumptions c12_iteration_invariant.
+
+(* ---- clause "no internal assertion failure", exact-arithmetic part: in every state satisfying the
+        invariant the guarded quantity c is <= 0 (the original `assert c <= 0` holds; the clamp that
+        replaced it after the rounding defect is the identity) *)
+Theorem c12_c_nonpos : forall n C Crs, CInv n C Crs ->
+  forall s i j, Inv n s -> (i < n)%nat -> (j < n)%nat ->
+  qc (C i j) (C j i) (snd s i) (snd s j) (fst s i j) <= 0.
+Proof. exact offdiag_c_nonpos. Qed.
+Print Assumptions c12_c_nonpos.
+
+(* ---- fixed_point_self_consistent: a state on which every coordinate update returns the entry already
+        there satisfies the Prinz self-consistency equations for all i, j *)
+Theorem c12_fixed_point_self_consistent : forall n C Crs, CInv n C Crs ->
+  forall s, Inv n s -> (forall i, (i < n)%nat -> 0 < snd s i) ->
+  (forall i, (i < n)%nat -> 0 < Crs i - C i i) ->
+  (forall i j, (i < j < n)%nat -> qa (C i j) (C j i) (Crs i) (Crs j) <> 0) ->
+  is_fixed n C Crs s ->
+  forall i j, (i < n)%nat -> (j < n)%nat ->
+    fst s i j * (Crs i / snd s i + Crs j / snd s j) = C i j + C j i.
+Proof. exact fixed_point_self_consistent. Qed.
+Print Assumptions c12_fixed_point_self_consistent.
+
+(* ---- the returned model: T = X / rowsum, pi = X_rs / sum X_rs of any state satisfying the invariant
+        with positive rows is row-stochastic, pi is a positive probability vector, and they are in
+        detailed balance (the reversible-matrix clause) *)
+Theorem c12_normalised_reversible : forall n s,
+  Inv n s -> (forall i, (i < n)%nat -> 0 < snd s i) -> (0 < n)%nat ->
+  let T := fun i j => fst s i j / sumR n (fst s i) in
+  let pi := fun i => snd s i / sumR n (snd s) in
+  (forall i j, (i < n)%nat -> (j < n)%nat -> 0 <= T i j) /\
+  (forall i, (i < n)%nat -> sumR n (T i) = 1) /\
+  (forall i, (i < n)%nat -> 0 < pi i) /\
+  sumR n pi = 1 /\
+  (forall i j, (i < n)%nat -> (j < n)%nat -> pi i * T i j = pi j * T j i).
+Proof. exact normalised_reversible. Qed.
+Print Assumptions c12_normalised_reversible.
+
+(* ---- the certificate evaluated on the implementation's output (exact rationals, no axioms) *)
+Theorem c12_cert_ok_sound : forall tol1 tol2 C T pi,
+  cert_ok tol1 tol2 true C T pi = true ->
+  let n := length C in
+  let Tf := mat_fun T in let pf := vec_fun pi in let Cf := mat_fun C in
+  let Crs := fun i => qsumn n (Cf i) in
+  length T = n /\ length pi = n /\
+  (Qabs (qsumn n pf - 1) <= tol1)%Q /\
+  forall i j, (i < n)%nat -> (j < n)%nat ->
+    (0 <= pf i /\ 0 <= Tf i j /\
+     Qabs (qsumn n (Tf i) - 1) <= tol1 /\
+     Qabs (pf i * Tf i j - pf j * Tf j i) <= tol1 /\
+     Qabs (Tf i j * Crs i + Tf j i * Crs j - (Cf i j + Cf j i)) <= tol2 * (Crs i + Crs j))%Q.
+Proof. exact cert_ok_sound. Qed.
+Print Assumptions c12_cert_ok_sound.
+
+Theorem c12_residual_is_prinz : forall pi_i pi_j Tij Tji ci cj s : Q,
+  (0 < pi_i -> 0 < pi_j -> pi_i * Tij == pi_j * Tji ->
+   (pi_i * Tij) * (ci / pi_i + cj / pi_j) - s == Tij * ci + Tji * cj - s)%Q.
+Proof. exact residual_is_prinz. Qed.
+Print Assumptions c12_residual_is_prinz.
+
+(* ---- non-vacuity *)
+(* the hypotheses of c12_fixed_point_self_consistent are met by C = [[1,1],[1,1]], X = C + C^T *)
+Example c12_example_fixed_point :
+  let C := fun (_ _ : nat) => 1 in let Crs := fun (_ : nat) => 2 in
+  let s : state R := (fun _ _ => 2, fun _ => 4) in
+  CInv 2 C Crs /\ Inv 2 s /\ (forall i, (i < 2)%nat -> 0 < snd s i) /\
+  (forall i, (i < 2)%nat -> 0 < Crs i - C i i) /\
+  (forall i j, (i < j < 2)%nat -> qa (C i j) (C j i) (Crs i) (Crs j) <> 0) /\
+  is_fixed 2 C Crs s /\
+  (forall i j, fst s i j = fst (init_state ROps 2 C) i j).
+Proof. exact fixed_point_example. Qed.
+Print Assumptions c12_example_fixed_point.
+
+(* the executable instance: two sweeps on [[0,1,5],[3,0,0],[4,0,0]] (the input on which the code used to
+   fail its assertion) give a model, both generated bodies agree, and a zero row is rejected *)
+Example c12_example_run :
+  let C := mat_fun [[0; 1; 5]; [3; 0; 0]; [4; 0; 0]]%Q in
+  (exists r, prinz_run (QOps 80) (py_sweep (QOps 80)) 3 C 2 = Some r /\
+             prinz_run (QOps 80) (pyx_sweep (QOps 80)) 3 C 2 = Some r /\
+             cert_ok (1 # 1000000000) (1 # 1000000) false [[0; 1; 5]; [3; 0; 0]; [4; 0; 0]]%Q (fst r) (snd r) = true) /\
+  prinz_run (QOps 80) (py_sweep (QOps 80)) 3 (mat_fun [[0; 1; 5]; [0; 0; 0]; [4; 0; 0]]%Q) 2 = None.
+Proof. split; [eexists; split; [vm_compute; reflexivity | split; vm_compute; reflexivity] | vm_compute; reflexivity]. Qed.
+Print Assumptions c12_example_run.
+
+(* the certificate accepts what builders.mle returns for [[5,2,1],[1,4,0],[2,1,6]] (doubles as exact rationals) *)
+Example c12_example_certificate :
+  cert_ok (1 # 1000000000) (1 # 1000000) true
+    [[5; 2; 1]; [1; 4; 0]; [2; 1; 6]]%Q
+    [[2814749766903847 # 4503599627370496; 4817302569482621 # 18014398509481984; 7752387489535893 # 72057594037927936];
+     [1550477497358853 # 9007199254740992; 3602879701703715 # 4503599627370496; 4015397663595353 # 144115188075855872];
+     [1070511681955197 # 4503599627370496; 1722752774414987 # 18014398509481984; 93824992244111 # 140737488355328]]%Q
+    [5992614661996099 # 18014398509481984; 4654733470548331 # 9007199254740992; 339039613298653 # 2251799813685248]%Q
+  = true.
+Proof. vm_compute. reflexivity. Qed.
+Print Assumptions c12_example_certificate.
